@@ -39,7 +39,11 @@ func simpleFh(ino uint64) nfstypes.Nfs_fh3 {
 
 var sOffsets = []uint64{0, 1, 100, 2048, 4095, 4096, 4097, 8192, 1 << 32, 1<<32 - 1, 1 << 63, 1<<64 - 1, 1<<64 - 4096, 1<<64 - 100}
 var sCounts = []uint64{0, 1, 7, 100, 2048, 4095, 4096, 4097, 5000, 1<<32 - 1, 1 << 31}
-var sInums = []uint64{0, 1, 2, 2, 2, 3, 3, 3, 4, 30, 31, 32, 33, 1 << 32, 1 << 63, 1<<64 - 1}
+
+// (the last entries are valid numbers with high bits set: they must not alias the
+// file whose number results when those bits are dropped)
+var sInums = []uint64{0, 1, 2, 2, 2, 3, 3, 3, 4, 30, 31, 32, 33, 1 << 32, 1 << 63, 1<<64 - 1,
+	1<<32 + 2, 1<<32 + 3, 1<<32 + 1, 1<<16 + 2, 1<<8 + 3, 1<<63 + 2, 1<<40 + 31}
 
 func (simpleEngine) Gen(prop string, seed uint64, tier string) *Spec {
 	rng := simrt.Stream(seed, "workload")
